@@ -769,6 +769,9 @@ class NPProxy:
 
     def __getattr__(self, k):
         f = getattr(np, k)
+        if k in ("finfo", "iinfo"):
+            # symbolic arrays stand for float64 data
+            return lambda dt=np.float64: f(np.float64 if np.dtype(dt) == np.dtype(object) else dt)
         if callable(f) and not isinstance(f, type):
             if f in HANDLED:
                 h = HANDLED[f]
